@@ -466,6 +466,29 @@ func TestC07(t *testing.T) {
 		r.NonTrivial(av.Hash("u" + strconv.FormatUint(u, 10)))
 	}
 	r.Label("boundary-values")
+	// ---- long messages: every int / long form at every alignment to the decoder's buffer refills
+	{
+		rs := seedFor("C07stream")
+		for pad := 0; pad < 10; pad++ {
+			l32 := make([]int32, 1200)
+			l64 := make([]int64, 1200)
+			for i := range l32 {
+				sh := rs.next() % 32
+				l32[i] = int32(rs.next()) >> sh
+				l64[i] = int64(rs.next()) >> (rs.next() % 64)
+			}
+			c := &zoo.IntLists{I32: l32, I64: l64, I: []int{int(l32[0])}, U64: []uint64{uint64(l64[0])}}
+			top := []interface{}{mkString(0, pad, 0, 0, 1), l32, l64}
+			for _, v := range []interface{}{c, top} {
+				if stage, err, _ := roundTrip(v); err != nil {
+					directFail(t, "C07", map[string]interface{}{"stream_pad": fmt.Sprint(pad)}, "C07 lists of 1200 ints and longs after %d pad characters: %s: %v", pad, stage, err)
+				}
+			}
+			r.EvalN(4800)
+			r.NonTrivial(av.Hash(fmt.Sprint("stream", pad)))
+		}
+		r.Label("long-messages-across-buffer-refills")
+	}
 
 	rng := seedFor("C07")
 	if rec.Thorough() {
